@@ -118,11 +118,16 @@ class SurveyScenario(BaseScenario):
                     raise Violation("C12", "copy_differs", f"{where}: the copied receivers' metadata lists components {listed}; the source lists {comps}",
                                     {"cls": "survey:" + cfg["pair"], "field": "components", "from": expect["_copied_from"]})
                 raise Violation("C20", "components_lost", f"{where}: the receivers' metadata lists components {listed}, expected {comps}", {**discr, "side": "rx"})
+        fresh_copy = (expect or {}).get("_copied_from") if not (expect or {}).get("_edited") else None
         expect = {k: v for k, v in (expect or {}).items() if not k.startswith("_")}
         if expect:
             for key, val in expect.items():
                 got = snapshot.canon(getattr(rx, key))
                 if not _loose(got, val):
+                    if fresh_copy:
+                        # a copy that was not edited since: a parameter differing from the source's is C12's "a copy equals its source"
+                        raise Violation("C12", "copy_differs", f"{where}: the copied receivers report {key} = {compare._short(got)}, the source {compare._short(val)}",
+                                        {"cls": "survey:" + cfg["pair"], "field": "parameter", "attr": key})
                     raise Violation("C20", "edit_lost", f"{where}: receivers.{key} = {compare._short(got)} expected {compare._short(val)}", {**discr, "side": "rx", "attr": key})
         if px_uid is None or not linked:
             del rx
@@ -356,10 +361,10 @@ class SurveyScenario(BaseScenario):
         if pr["expect"].get("_components"):
             cands = [c for c in cands if c[0] != "channels"]     # the number of channels is fixed once components exist
         if isinstance(getattr(type(ent), "loop_radius", None), property):
-            cands.append(("loop_radius", float(r.randrange(1, 50))))
+            cands.append(("loop_radius", 0.0 if r.random() < 0.15 else float(r.randrange(1, 50))))
         for name in ("pitch", "roll", "yaw", "inline_offset", "crossline_offset", "vertical_offset"):
             if isinstance(getattr(type(ent), name, None), property) and r.random() < 0.3:
-                cands.append((name, float(r.randrange(-20, 20))))
+                cands.append((name, 0.0 if r.random() < 0.25 else float(r.randrange(-20, 20))))      # (zero is a value, not an absence)
         if isinstance(getattr(type(ent), "relative_to_bearing", None), property):
             cands.append(("relative_to_bearing", r.random() < 0.5))
         if isinstance(getattr(type(ent), "timing_mark", None), property):
@@ -376,6 +381,8 @@ class SurveyScenario(BaseScenario):
             return "raised:" + type(err).__name__
         del ent
         pr["expect"][attr] = val
+        if pr["expect"].get("_copied_from"):
+            pr["expect"]["_edited"] = True
         sim.probe("edit_from_receivers" if side == "rx" else "edit_from_partner")
         return "ok"
 
